@@ -124,6 +124,7 @@ structure MiserOut (G : Type) where
   calls : Int               -- npre + leaves, accumulated
   iran : Nat
   g : G
+  knife : Bool := false     -- an allocation `int(…)` was within 2^-30 of an integer (rounding decides in the C++)
 
 /-- `Miser(func, region, npts, dith = 0, ave, var, PRNG)` with the file-static `iran` threaded.
     `none`: a (sub)call with `npts ≤ 0` (the C++ divides by zero there) or out of fuel.
@@ -135,7 +136,7 @@ def miser (f : List Rat → Rat) (pw23 : Rat → Rat) : Nat → List Rat → Int
     if npts ≤ 0 then none
     else if npts < 60 then
       let s := sampleN u01 f region npts.toNat g
-      some ⟨sumVals s.1 / npts, s.1.map (·.1), npts, iran, s.2⟩
+      some ⟨sumVals s.1 / npts, s.1.map (·.1), npts, iran, s.2, false⟩
     else
       let npre : Int := max (npts / 10) 15
       let iran' := lcgN dim iran
@@ -145,7 +146,9 @@ def miser (f : List Rat → Rat) (pw23 : Rat → Rat) : Nat → List Rat → Int
       let rgm := rmid region dim sp.jb
       let rgr := at_ region (dim + sp.jb)
       let fracl := rabs ((rgm - rgl) / (rgr - rgl))
-      let nptl : Int := truncInt (15 + ((npts - npre - 30 : Int) : Rat) * fracl * sp.siglb / (fracl * sp.siglb + (1 - fracl) * sp.sigrb))
+      let raw : Rat := 15 + ((npts - npre - 30 : Int) : Rat) * fracl * sp.siglb / (fracl * sp.siglb + (1 - fracl) * sp.sigrb)
+      let nptl : Int := truncInt raw
+      let kn : Bool := decide (rabs (raw - ((raw + 1 / 2).floor : Rat)) * (2 : Rat) ^ (30 : Nat) < 1)
       let nptr : Int := npts - npre - nptl
       match miser f pw23 fuel (subRegion region dim sp.jb rgm true) nptl iran' pre.2 with
       | none => none
@@ -153,19 +156,20 @@ def miser (f : List Rat → Rat) (pw23 : Rat → Rat) : Nat → List Rat → Int
         match miser f pw23 fuel (subRegion region dim sp.jb rgm false) nptr l.iran l.g with
         | none => none
         | some r =>
-          some ⟨fracl * l.ave + (1 - fracl) * r.ave, pre.1.map (·.1) ++ l.pts ++ r.pts, npre + l.calls + r.calls, r.iran, r.g⟩
+          some ⟨fracl * l.ave + (1 - fracl) * r.ave, pre.1.map (·.1) ++ l.pts ++ r.pts, npre + l.calls + r.calls, r.iran, r.g,
+                kn || l.knife || r.knife⟩
 
 /-- `Integrate_MC_Miser`: `iran = 0` at the start of every integration (fix 1d564f6); the incoming
     value of the static is an argument so that independence of it can be stated -/
-def miserTop (f : List Rat → Rat) (pw23 : Rat → Rat) (region : List Rat) (ncall : Int) (_iranStatic : Nat) (g : G) : Option (Rat × List (List Rat)) :=
+def miserTop (f : List Rat → Rat) (pw23 : Rat → Rat) (region : List Rat) (ncall : Int) (_iranStatic : Nat) (g : G) : Option (Rat × List (List Rat) × Bool) :=
   match miser u01 f pw23 ncall.toNat.succ region ncall 0 g with
-  | some o => some (mcVolume region * o.ave, o.pts)
+  | some o => some (mcVolume region * o.ave, o.pts, o.knife)
   | none => none
 
 /-- the unrepaired code: the static survives from the previous integration -/
-def miserTopNoReset (f : List Rat → Rat) (pw23 : Rat → Rat) (region : List Rat) (ncall : Int) (iranStatic : Nat) (g : G) : Option (Rat × List (List Rat)) :=
+def miserTopNoReset (f : List Rat → Rat) (pw23 : Rat → Rat) (region : List Rat) (ncall : Int) (iranStatic : Nat) (g : G) : Option (Rat × List (List Rat) × Bool) :=
   match miser u01 f pw23 ncall.toNat.succ region ncall iranStatic g with
-  | some o => some (mcVolume region * o.ave, o.pts)
+  | some o => some (mcVolume region * o.ave, o.pts, o.knife)
   | none => none
 
 end Generic
